@@ -66,9 +66,9 @@ def canon_diff(a: dict, b: dict, keys_ok=None, limit=4) -> list:
 
 
 def _deep_val(v):
-    if isinstance(v, np.ndarray):
+    if isinstance(v, np.ndarray) and v.ndim != 1:
         return ("nd", tuple(v.shape), tuple(norm(x) for x in v.ravel().tolist()))
-    return norm(v)
+    return norm(v)  # a 1-d array and a list holding the same numbers are the same value
 
 
 def deep(tr, emissions: int = 0) -> dict:
